@@ -7,6 +7,7 @@ import BqVerif.Proofs.CircWhole
 import BqVerif.Proofs.CircReplace
 import BqVerif.Proofs.CircBatch
 import BqVerif.Proofs.CircSem
+import BqVerif.Proofs.CircUnfoldSem
 /-! # C04 — Circuit editing calls have their documented effect on program order -/
 namespace BqVerif.C04
 open BqVerif.Circ
@@ -248,5 +249,64 @@ example :
     let c : Circ := ⟨[2, 3], [[⟨6, [], [0, 1], [2, 3]⟩], [⟨4, [7], [1], [3]⟩]]⟩
     c.invB = true ∧ permOk c.numQudits [1, 0] = true ∧
       (c.renumber [1, 0]).1 = ⟨[3, 2], [[⟨6, [], [1, 0], [2, 3]⟩], [⟨4, [7], [0], [3]⟩]]⟩ := by decide
+
+/-- **S3, flattening keeps the unitary** (list level): in any semantics that reads a block
+operation as the ordered product of its expansion (body in iteration order, parameters distributed
+as `set_params` does, relabelled through the block's location), expanding blocks to any depth
+keeps the denotation. -/
+theorem C04_flatten_same_unitary {M : Type} [Monoid M] (sem : Op → M) (b : Blocks)
+    (hblock : ∀ o inner, expandOp b o = some inner → sem o = den sem inner)
+    (fuel : Nat) (l : List Op) : den sem (flattenOps b fuel l) = den sem l :=
+  den_flattenOps sem b hblock fuel l
+
+/-- **unfold keeps the unitary** (the call itself): for a point holding a block operation whose
+body is a well-formed circuit on the block's radixes, `unfold(point)` succeeds, keeps `Inv`, and
+the new circuit denotes what the old one did — in every monoid semantics where operations on
+disjoint qudits commute and a block denotes the product of its expansion.  (The proof follows the
+code: pop, then `insert_circuit` — reversed inserts at the popped cycle, or forward appends when
+that cycle was the last and vanished — and shows that in every timeline the block's place is
+taken by a linearisation of the relabelled body; `unfold_timeline`.) -/
+theorem C04_unfold_same_unitary {M : Type} [Monoid M] (sem : Op → M)
+    (hcomm : ∀ a b, Indep a b → sem a * sem b = sem b * sem a) (b : Blocks)
+    (hblock : ∀ o inner, expandOp b o = some inner → sem o = den sem inner)
+    (c : Circ) (hinv : c.Inv) (p : Int × Int) (k q0 : Nat) (o : Op) (body : Circ)
+    (hg : c.getOp p = .ok (k, q0, o)) (hbody : b.body? o.gid = some body)
+    (hbinv : body.Inv) (hfit : body.radixes = o.rad) :
+    (c.unfold b p).2 = .ok () ∧ (c.unfold b p).1.Inv ∧
+      den sem (c.unfold b p).1.iter = den sem c.iter :=
+  unfold_same_den sem hcomm b hblock c hinv p k q0 o body hg hbody hbinv hfit
+
+/-- the timeline statement behind it -/
+theorem C04_unfold_timeline (c : Circ) (hinv : c.Inv) (b : Blocks) (p : Int × Int) (k q0 : Nat)
+    (o : Op) (body : Circ) (hg : c.getOp p = .ok (k, q0, o)) (hbody : b.body? o.gid = some body)
+    (hbinv : body.Inv) (hfit : body.radixes = o.rad) :
+    ∃ (hlt : k < c.cycles.length) (inner : List Op),
+      (c.unfold b p).2 = .ok () ∧ (c.unfold b p).1.Inv ∧
+      (∀ x ∈ inner, x.loc ≠ []) ∧
+      (∀ q, proj q inner = proj q ((distribute body.iter o.par).map (·.mapLoc o.loc))) ∧
+      (∀ q, c.timeline q = proj q (c.cycles.take k).flatten ++ (if o.on q then [o] else []) ++
+        proj q (c.cycles[k].filter (fun x => !x.on q0)) ++
+          proj q (c.cycles.drop (k + 1)).flatten) ∧
+      (∀ q, (c.unfold b p).1.timeline q = proj q (c.cycles.take k).flatten ++ proj q inner ++
+        proj q (c.cycles[k].filter (fun x => !x.on q0)) ++
+          proj q (c.cycles.drop (k + 1)).flatten) :=
+  unfold_timeline c hinv b p k q0 o body hg hbody hbinv hfit
+
+-- non-vacuity: a block on (2,0) in the last cycle (the forward-append branch) and one in the
+-- middle (the reversed-insert branch)
+example :
+    let body : Circ := ⟨[2, 2], [[⟨1, [], [0], [2]⟩], [⟨6, [], [0, 1], [2, 2]⟩]]⟩
+    let b : Blocks := [(1000, body)]
+    let blk : Op := ⟨1000, [], [2, 0], [2, 2]⟩
+    let c : Circ := ⟨[2, 2, 2], [[⟨2, [], [1], [2]⟩], [blk]]⟩
+    let c2 : Circ := ⟨[2, 2, 2], [[⟨2, [], [1], [2]⟩], [blk], [⟨2, [], [0], [2]⟩]]⟩
+    c.invB = true ∧ body.invB = true ∧ c.getOp (-1, 2) = .ok (1, 2, blk) ∧
+      b.body? blk.gid = some body ∧ body.radixes = blk.rad ∧
+      (c.unfold b (-1, 2)).1.cycles =
+        [[⟨2, [], [1], [2]⟩, ⟨1, [], [2], [2]⟩], [⟨6, [], [2, 0], [2, 2]⟩]] ∧
+      c2.getOp (1, 0) = .ok (1, 0, blk) ∧
+      (c2.unfold b (1, 0)).1.cycles =
+        [[⟨2, [], [1], [2]⟩], [⟨1, [], [2], [2]⟩], [⟨6, [], [2, 0], [2, 2]⟩], [⟨2, [], [0], [2]⟩]] := by
+  decide
 
 end BqVerif.C04
